@@ -1254,6 +1254,7 @@ def make_chooser(plan, n):
 
 def run_plan(plan, reference=True, watchdog=40.0):
     from . import reference as refmod
+    seams.KNOB_SHIFT = int(plan.get("knobs", {}).get("const_shift", 0))
     L = seams.fresh_library(patch_stream=True)
     torch = L.torch
     torch.set_default_dtype(torch.float32)
